@@ -335,7 +335,8 @@ def finish_ped(res, model, impl, summ, outdir, t0):
                 res.disagreements.append((cid, 0, "missing output"))
                 continue
             flags = [int(x) for x in im.get(1, [])]
-            names = ["commit == msm([B,B~],[v,r])", "Prover::commit == PedersenGens::commit", "homomorphism", "commit(0,0) identity", "scaling"]
+            names = ["commit == msm([B,B~],[v,r])", "Prover::commit == PedersenGens::commit", "homomorphism", "commit(0,0) identity", "scaling",
+                     "further commitments on the same prover (repeated blinding, zero blinding, repeated opening) == msm([B,B~],[v,r])"]
             for nm, fl in zip(names, flags):
                 if fl != 1:
                     res.disagreements.append((cid, 1, "implementation: %s fails" % nm))
